@@ -7,13 +7,13 @@ demo=$(python3 -c "import json;print(json.load(open('meta.json'))['demo_cmd'])" 
 echo "demo: $demo"
 git diff --stat -- src derive
 echo "== existing tests with the change"
-cargo test --workspace --no-fail-fast --offline 2>&1 | grep -E "^test result|FAILED" | grep -v seeded | head -12
+cargo test --offline --lib --test cc --test auto_collect 2>&1 | grep -E "^test result|FAILED" | head -6; cargo test --offline --features weak-ptrs,cleaners --lib --test weak_upgrade_tests 2>&1 | grep -E "^test result|FAILED" | head -4
 echo "== demo with the change (must fail)"
 $demo 2>&1 | grep -E "^test result|panicked|FAILED|error" | head -5
-git stash push -q -- src derive
+git diff -- src derive > /tmp/confirm_$id.diff; git apply -R /tmp/confirm_$id.diff
 echo "== demo without the change (must pass)"
 $demo 2>&1 | grep -E "^test result|panicked|FAILED|error" | head -5
-git stash pop -q
+git apply /tmp/confirm_$id.diff
 mkdir -p /verif/seeded/$id
 git diff -- src derive > /verif/seeded/$id/patch.diff
 cp tests/seeded_demo.rs /verif/seeded/$id/ 2>/dev/null
